@@ -187,6 +187,8 @@ fn apply<T: Elem>(t: &mut TooDee<T>, op: &Op, ret: &mut Vec<u64>) {
         Op::Capacity(k, n) => match k {
             0 => t.reserve(u(n)),
             1 => t.reserve_exact(u(n)),
+            // an empty array replaced by with_capacity(n): still the empty array
+            3 => if t.data().is_empty() { *t = TooDee::with_capacity(u(n)) },
             _ => t.shrink_to_fit(),
         },
         Op::SetCell(c, r, v) => { t[(u(c), u(r))] = T::mk(*v); }
@@ -233,7 +235,10 @@ fn probe<T: Elem>(t: &TooDee<T>, out: &mut Vec<u64>) {
     let (c, r) = t.size();
     out.extend([c as u64, r as u64]);
     let d = t.data();
-    out.push(d.len() as u64);
+    // AsRef<[T]> / AsRef<Vec<T>> are the same buffer
+    let (a1, a2): (&[T], &Vec<T>) = (t.as_ref(), t.as_ref());
+    let same_buf = a1.as_ptr() == d.as_ptr() && a1.len() == d.len() && a2.as_ptr() == d.as_ptr() && a2.len() == d.len();
+    out.push(if same_buf { d.len() as u64 } else { u64::MAX });
     out.extend(d.iter().map(|x| x.val() as u64));
     let drops = ledger_take_step_drops();
     if T::TRACK {
@@ -247,7 +252,7 @@ fn probe<T: Elem>(t: &TooDee<T>, out: &mut Vec<u64>) {
         let mut o: Vec<u64> = vec![];
         o.push(t.rows().len() as u64);
         o.push(t.cells().len() as u64);
-        if c > 256 || r > 256 {
+        if c > 1024 || r > 1024 {
             // dimensions that cannot describe a test array: refuse to walk them
             o.push(MARK_PROBE_PANIC);
             return o;
@@ -454,7 +459,7 @@ pub fn gen_c06(out: &mut Out, tier: &str, _rng: &mut Rng) {
 /// without spare capacity - sizes at which buffer strategies (stack buffers in rotate,
 /// reallocation fast paths) change
 pub fn gen_large(out: &mut Out, prop: u32, tier: &str, rng: &mut Rng) {
-    let mut shapes: Vec<(u64, u64)> = vec![(70, 3), (20, 3), (3, 70), (250, 2), (33, 4)];   // (the probe suite walks at most 256 x 256)
+    let mut shapes: Vec<(u64, u64)> = vec![(70, 3), (20, 3), (3, 70), (250, 2), (33, 4)];   // (the probe suite walks at most 1024 x 1024)
     let big: Vec<(u64, u64)> = if tier == "quick" { vec![(64, 64)] } else { vec![(64, 64), (16, 256), (256, 17)] };
     shapes.extend(big.iter().copied());
     for (c, r) in shapes {
@@ -634,7 +639,7 @@ pub fn rand_op(rng: &mut Rng, c: u64, r: u64, next_id: &mut u32, honest_only: bo
         17 => Op::PopCol(random_script(rng, r), fin(rng)),
         18 => if rng.chance(30) { Op::Clear } else if rng.chance(30) { Op::Bomb(rng.below(c * r + 1), Box::new(Op::Clear)) } else { Op::SwapDims },
         19 => Op::SwapDims,
-        20 => Op::Capacity(rng.below(3), rng.below(40)),
+        20 => Op::Capacity(rng.below(4), rng.below(40)),
         21 | 22 => { let v = fresh(1)[0]; Op::SetCell(rand_dim_arg(rng, c, 20), rand_dim_arg(rng, r, 20), v) }
         23 => { let v = fresh(1)[0]; Op::Fill(v) }
         24 => Op::CloneArr,
@@ -764,6 +769,13 @@ pub fn gen_c11_iter(out: &mut Out, tier: &str, rng: &mut Rng) {
                         }
                     }
                     for s in scripts {
+                        // push_row / push_col are entry points of their own
+                        if idx == dim {
+                            let push = if kind == 0 { Op::PushRow(s.clone()) } else { Op::PushCol(s.clone()) };
+                            for cap in [Op::Capacity(2, 0), Op::Capacity(0, 16)] {
+                                emit(out, 11, true, &[FromVecOp(c, r), cap, push.clone(), Op::PushRow(Script::honest(ids(c.max(1) as usize, 600))), Op::Clear]);
+                            }
+                        }
                         let op = if kind == 0 { Op::InsertRow(idx, s) } else { Op::InsertCol(idx, s) };
                         // after the fault: probe suite = read (probes), modify, drain, clear
                         let tail = vec![
@@ -772,17 +784,41 @@ pub fn gen_c11_iter(out: &mut Out, tier: &str, rng: &mut Rng) {
                             Op::Clear,
                         ];
                         for track in [true, false] {
-                            let mut ops = vec![FromVecOp(c, r), Op::Capacity(2, 0), op.clone()];
-                            ops.extend(tail.clone());
-                            emit(out, 11, track, &ops);
+                            // without spare room (shrink_to_fit) and with it (reserve)
+                            for cap in [Op::Capacity(2, 0), Op::Capacity(0, 16)] {
+                                if !track && matches!(cap, Op::Capacity(0, _)) { continue; }
+                                let mut ops = vec![FromVecOp(c, r), cap, op.clone()];
+                                ops.extend(tail.clone());
+                                emit(out, 11, track, &ops);
+                            }
                         }
                     }
                 }
             }
         }
     }
-    // Clone / Default that panic at their k-th call, for every operation that calls them:
-    // init, fill, clone, clone_from (every pair of shapes), new
+    gen_fuses(out, 11, tier);
+    let (n, maxlen) = if tier == "quick" { (1500, 10) } else { (40000, 30) };
+    for i in 0..n {
+        let len = 1 + rng.below(maxlen) as usize;
+        let mut ops = rand_history(rng, len, false, false);
+        // every third random history: some Clone-calling steps get a fuse
+        if i % 3 == 0 {
+            ops = ops.into_iter().map(|o| match &o {
+                Op::Fill(_) | Op::CloneArr | Op::Init(..) if rng.chance(60) => Op::Fuse(0, rng.below(6), Box::new(o)),
+                Op::New(..) if rng.chance(60) => Op::Fuse(1, rng.below(6), Box::new(o)),
+                _ => o }).collect();
+            if rng.chance(50) { let (c2, r2) = (1 + rng.below(3), 1 + rng.below(3)); let at = rng.below(ops.len() as u64 + 1) as usize;
+                let cf = Op::CloneFrom(c2, r2, ids((c2 * r2) as usize, 7100)); ops.insert(at, if rng.chance(50) { Op::Fuse(0, rng.below(c2 * r2 + 1), Box::new(cf)) } else { cf }); }
+        }
+        ops.push(Op::DropArr);
+        emit(out, 11, true, &ops);
+    }
+}
+
+/// Clone / Default that panic at their k-th call, for every operation that calls them:
+/// init, fill, clone, clone_from (every pair of shapes), new
+pub fn gen_fuses(out: &mut Out, prop: u32, tier: &str) {
     let fmax = if tier == "quick" { 3 } else { 4 };
     for (c, r) in shapes(fmax) {
         let n = c * r;
@@ -809,26 +845,27 @@ pub fn gen_c11_iter(out: &mut Out, tier: &str, rng: &mut Rng) {
                 ];
                 let mut ops = vec![FromVecOp(c, r), Op::Fuse(kind, k, Box::new(op.clone()))];
                 ops.extend(tail);
-                emit(out, 11, true, &ops);
-                if k == 0 { let mut o2 = vec![FromVecOp(c, r), Op::Fuse(kind, k, Box::new(op.clone())), Op::Clear]; o2.truncate(3); emit(out, 11, false, &o2); }
+                emit(out, prop, true, &ops);
+                if k == 0 { let mut o2 = vec![FromVecOp(c, r), Op::Fuse(kind, k, Box::new(op.clone())), Op::Clear]; o2.truncate(3); emit(out, prop, false, &o2); }
             }
         }
     }
-    let (n, maxlen) = if tier == "quick" { (1500, 10) } else { (40000, 30) };
-    for i in 0..n {
-        let len = 1 + rng.below(maxlen) as usize;
-        let mut ops = rand_history(rng, len, false, false);
-        // every third random history: some Clone-calling steps get a fuse
-        if i % 3 == 0 {
-            ops = ops.into_iter().map(|o| match &o {
-                Op::Fill(_) | Op::CloneArr | Op::Init(..) if rng.chance(60) => Op::Fuse(0, rng.below(6), Box::new(o)),
-                Op::New(..) if rng.chance(60) => Op::Fuse(1, rng.below(6), Box::new(o)),
-                _ => o }).collect();
-            if rng.chance(50) { let (c2, r2) = (1 + rng.below(3), 1 + rng.below(3)); let at = rng.below(ops.len() as u64 + 1) as usize;
-                let cf = Op::CloneFrom(c2, r2, ids((c2 * r2) as usize, 7100)); ops.insert(at, if rng.chance(50) { Op::Fuse(0, rng.below(c2 * r2 + 1), Box::new(cf)) } else { cf }); }
+}
+
+/// C20: clone() / clone_from() between every pair of small shapes (equal counts with
+/// different dimensions included), then the conversions out, tracked and Copy elements
+pub fn gen_clone_from(out: &mut Out, prop: u32, tier: &str) {
+    let max = if tier == "quick" { 3 } else { 4 };
+    for (c, r) in shapes(max) { for (c2, r2) in shapes(max) {
+        let d = ids((c2 * r2) as usize, 7000);
+        for track in [true, false] {
+            emit(out, prop, track, &[FromVecOp(c, r), Op::CloneFrom(c2, r2, d.clone()), Op::CloneArr, Op::SetCell(0, 0, 9), Op::IntoVec]);
+            emit(out, prop, track, &[FromVecOp(c, r), Op::CloneArr, Op::CloneFrom(c2, r2, d.clone()), Op::IntoIter(2)]);
         }
-        ops.push(Op::DropArr);
-        emit(out, 11, true, &ops);
+    } }
+    // rejected sources leave the destination alone
+    for (c2, r2, l) in [(2u64, 0u64, 0usize), (0, 3, 0), (2, 2, 3), (2, 2, 5)] {
+        emit(out, prop, true, &[FromVecOp(2, 2), Op::CloneFrom(c2, r2, ids(l, 7000)), Op::IntoVec]);
     }
 }
 
